@@ -57,11 +57,11 @@ CLAIMED['C01'] = dict(
     note='AX-ZFP-ENC, AX-NP-INDEX, sequential loop order; composition across contracts by modularity, not re-proved end to end')
 CLAIMED['C20'] = dict(
     text='Proof for the routes under contract (NumPy, regular SEG-Y with either reader): the byte strings fed to the hash object are exactly the real inlines of the source, each once, in trace order, for all shapes and settings.',
-    note='AX-SHA1 (incl. collision resistance); write_hash patch / accessor / re-blocker copy not yet under contract')
+    note='AX-SHA1 (incl. collision resistance); write_hash under contract (20 bytes at 960, fed by the digest run_conversion_loop returns); accessor / re-blocker copy of the hash: bounded (C12) / not covered')
 CLAIMED['C11'] = dict(
     text='Proof per function (modular): window acceptance in SeismicFileConverter.__init__ (0 is a bound), header-array sizing, make_header window words, io_thread_func '
          '(window samples + header capture; unrolled per inline block extent 4/8[/16]), seismic_file_producer (layout agreement for the window shape, hash of the window rows) -- '
-         'all cube shapes and all windows. Glue in run()/run_conversion_loop and the CLI are not under contract.',
+         'all cube shapes and all windows. Glue (run, run_conversion_loop) by data-flow contracts; the CLI is not under contract.',
     note='AX-SEGYIO-R handle model; reduce_iops falls back to segyio for windows (fix 7a327a8); composition by modularity')
 CLAIMED['C04'] = dict(
     text='Proof per function of the header chain: capture (io_thread_func[_2d], reduced-I/O bytes), classification (HeaderwordInfo.__init__ list modes exactly; heuristic mode under the '
@@ -97,5 +97,5 @@ CLAIMED['C15'] = dict(
 CLAIMED['C18'] = dict(
     text='Proof in two parts: (1) fault-mode contracts (any range read may be short, which is what a cut file does): reader construction, loaders, sample reads and header reads either raise or used only '
          'complete reads, hence return what the complete file returns; (2) write-order obligations: count/table patches precede every footer byte, footer arrays in table order at the reader stride, '
-         'blocks in order (C16). Sequencing of the writer functions inside run() is read, not verified; the hash patch (last write) is out of scope.',
+         'blocks in order (C16). Sequencing of the writer functions inside run() is under contract; the hash patch (last write) is out of scope.',
     note='AX-FILE (writes append in order; a cut inside a write is a byte-length cut); same trusted base as C17; found and fixed D25 (short reads were decoded)')
